@@ -32,7 +32,10 @@ _GENERIC = ("Deductive tier: the contracts tagged with this property are dischar
 
 prop("C02", "other", _GENERIC + "Proved: wire Parser primitives every codec is built on (exact consumption, FormError on short input). "
      "Per-type codec round trips are bounded.", needs_obligations=True)
-prop("C03", "other", _GENERIC + "Proved: rcode/opcode flag codecs and their round-trip lemmas. Whole-message render/parse composition is bounded.")
+prop("C03", "other", _GENERIC + "Proved: rcode/opcode flag codecs and their round-trip lemmas; Renderer._rollback (buffer cut, table "
+     "purged: no entry at or beyond the cut survives, entries below it are untouched), _set_section, add_question (removed whole on "
+     "TooBig), and the table discipline of Name.to_wire with a file (entries only at offsets written by the call, <= 0x3FFF; thorough "
+     "tier). Whole-message render/parse composition is bounded.")
 prop("C04", "other", _GENERIC + "Proved: exception sets and termination of the wire parser kernel (Parser.*, name.from_wire_parser, "
      "_validate_labels, Name.__init__). Text side and per-type bodies are bounded.")
 prop("C05", "other", _GENERIC + "No text-codec contract is discharged yet; the property is decided by the bounded stand-in only.", needs_obligations=False)
@@ -42,21 +45,31 @@ prop("C06", "proof", "Name.fullcompare is proved totally correct against the RFC
      "hash law are covered by the bounded stand-in (labelled bounded).",
      assumptions=["A-order: bytes comparison is a strict total (lexicographic) order on octet strings; its transitivity is instantiated at the deciding label",
                   "L-sum: additivity of the finite sum wirelen (instantiated, not re-proved by the solver)"])
-prop("C07", "other", _GENERIC + "Proved: Name equality contract (shared with C06). Set algebra, Rdataset and immutability are bounded.", needs_obligations=True)
-prop("C08", "other", _GENERIC + "No renderer contract is discharged yet; decided by the bounded stand-in only.", needs_obligations=False)
+prop("C07", "other", _GENERIC + "Proved: Name equality contract (shared with C06); dns.set.Set add/remove/discard and the in-place union, "
+     "intersection and difference against set theory over the abstract key set, including the self-aliasing cases. Copying forms, "
+     "insertion order, Rdataset rules and immutability are bounded.", needs_obligations=True,
+     assumptions=["A-key: element == is an equivalence with a consistent hash (elements are abstracted as integer identities)"])
+prop("C08", "other", _GENERIC + "Proved: the budget invariant of reserve/release_reserved, Renderer._rollback, and add_question as the "
+     "model case of 'a record set that does not fit is removed whole' (on TooBig the buffer, counts and compression table are exactly "
+     "what they were). Message.to_wire control, reserve exactness and padding are bounded.")
 prop("C09", "other", _GENERIC + "No zone-file contract is discharged yet; decided by the bounded stand-in only.", needs_obligations=False)
 prop("C10", "other", _GENERIC + "Proved: RFC 1982 Serial arithmetic and comparison contracts and the increment lemma. Transactions are bounded.")
-prop("C11", "other", _GENERIC + "No contract discharged yet; decided by the bounded stand-in only.", needs_obligations=False)
-prop("C12", "other", _GENERIC + "No contract discharged yet; schedules are enumerated by the bounded stand-in (controlled scheduler). "
-     "Liveness under an unfair scheduler is out of reach.", needs_obligations=False)
+prop("C11", "other", _GENERIC + "Discharged: the mechanical lock-discipline obligations of dns.versioned.Zone (readers pick and register "
+     "their version under the lock). Snapshot isolation, retention and immutability are bounded.")
+prop("C12", "other", _GENERIC + "Discharged: the mechanical lock-discipline obligations (every access of the writer/reader state under "
+     "_version_lock or in *_unlocked methods whose call sites hold it; no blocking call under the lock). The monitor invariant itself "
+     "is not proved; schedules are enumerated by the bounded stand-in. Liveness under an unfair scheduler is out of reach.")
 prop("C13", "other", _GENERIC + "Proved: RFC 1982 Serial comparison used for 'serial went backwards'. The transfer state machine is bounded.")
-prop("C14", "other", _GENERIC + "No contract discharged yet; decided by the bounded stand-in (independent RFC 8945 oracle).", needs_obligations=False,
+prop("C14", "other", _GENERIC + "Proved: dns.tsig._digest feeds the HMAC exactly the RFC 8945 4.3 digest components (first and "
+     "subsequent messages, request MAC prefix, 48-bit time split) and _maybe_start_digest primes the next context with the "
+     "length-prefixed MAC; the HMAC context is a ghost concatenation (assumed). sign/validate composition and rejection are bounded.",
      assumptions=["A-crypto: hashlib/hmac are trusted"])
 prop("C15", "other", _GENERIC + "Proved: DNSKEY key tag (RFC 4034 appendix B) with loop invariant over the real loop. Other computations are bounded.",
      assumptions=["A-crypto: hash functions are trusted"])
 prop("C16", "other", _GENERIC + "Proved: the lifetime budget (_compute_timeout) over reals with an external clock. The resolution state machine is bounded.",
      assumptions=["A-float: clock readings and timeouts are reals"])
-prop("C17", "other", _GENERIC + "No contract discharged yet; decided by the bounded stand-in.", needs_obligations=False)
+prop("C17", "other", _GENERIC + "Discharged: the mechanical lock-discipline obligations of the cache classes (linearizability by one "
+     "lock hold per public method). Freshness, LRU order and counters are bounded.")
 prop("C18", "other", _GENERIC + "No contract discharged yet; decided by the bounded stand-in (scripted sockets).", needs_obligations=False)
 prop("C19", "other", _GENERIC + "Proved: _Node.search_in_node (binary search, termination). Tree restructuring and copy-on-write are bounded.")
 prop("C20", "other", _GENERIC + "No contract discharged yet; decided by the bounded stand-in.", needs_obligations=False)
